@@ -365,6 +365,10 @@ impl FieldMap {
         // verification hook: the order in which the map yields its entries is a choice of the harness
         #[cfg(okane_verif)]
         let config_mapping = okane_core::verif::permuted(config_mapping.iter().collect::<Vec<_>>());
+        // The map yields its entries in arbitrary order; visit them in the order of FieldKey
+        // so that the reported error is always the same when several fields are wrong.
+        let mut config_mapping: Vec<_> = config_mapping.into_iter().collect();
+        config_mapping.sort_by_key(|(k, _)| **k);
         for (&k, pos) in config_mapping {
             let field = match &pos {
                 config::FieldPos::Index(i) => Ok(Field::ColumnIndex(i.as_zero_based())),
